@@ -81,6 +81,9 @@ class RecursiveGraphIterator(Iterator[_core.Node], Reversible[_core.Node]):
         for attr in node.attributes.values():
             if not isinstance(attr, _core.Attr):
                 continue
+            if attr.is_ref():
+                # A reference attribute names an attribute of the enclosing function; it holds no graph
+                continue
             if attr.type == _enums.AttributeType.GRAPH:
                 if self._enter_graph is not None:
                     self._enter_graph(attr.value)
